@@ -847,4 +847,55 @@ def quoteMark : AttrChar := { value := '"', isQuoted := false, isQuoting := true
 def shellWord (q p : List Char) : List AttrChar :=
   [quoteMark] ++ q.map (attrOf true) ++ [quoteMark] ++ p.map (attrOf false)
 
+/-! ### `case.rs execute` with the exit status (wave 2) -/
+
+/-- a case item as `execute` sees it: patterns, continuation, `item.body.0.is_empty()`, and what executing the
+    body does to `$?` -/
+structure CaseItemM where
+  alts : List (List PatternChar)
+  cont : CaseCont
+  bodyEmpty : Bool
+  body : Nat → Nat
+
+/-- the `for item in items` loop of `execute`: state = (`falling_through`, `exit_status_updated`, `env.exit_status`);
+    result = (indices of the bodies run, `env.exit_status`, `exit_status_updated`) -/
+def caseExecuteGo (subject : List Char) : Bool → Bool → Nat → Nat → List CaseItemM → List Nat × Nat × Bool
+  | _, upd, st, _, [] => ([], st, upd)
+  | falling, upd, st, i, it :: rest =>
+    if falling || itemMatches subject it.alts then
+      match it.cont with
+      | .brk => ([i], it.body st, !it.bodyEmpty)
+      | .fallThrough =>
+        let r := caseExecuteGo subject true (!it.bodyEmpty) (it.body st) (i + 1) rest
+        (i :: r.1, r.2)
+      | .cont =>
+        let r := caseExecuteGo subject false (!it.bodyEmpty) (it.body st) (i + 1) rest
+        (i :: r.1, r.2)
+    else caseExecuteGo subject false upd st (i + 1) rest
+
+/-- `execute` after the subject has been expanded: the bodies run and `$?` afterwards
+    (`if !exit_status_updated { env.exit_status = ExitStatus::SUCCESS }`) -/
+def caseExecute (items : List CaseItemM) (subject : List Char) (st0 : Nat) : List Nat × Nat :=
+  let r := caseExecuteGo subject false false st0 0 items
+  (r.1, if r.2.2 then r.2.1 else 0)
+
+/-! ### `trim::apply` on a value (wave 2) -/
+
+/-- `yash_env::variable::Value` as far as `trim::apply` reads it -/
+inductive Value where
+  | scalar (v : List Char)
+  | array (vs : List (List Char))
+  deriving DecidableEq, Repr
+
+/-- `trim::apply` after `trim.pattern.expand(env)` and `ifs_join`: `apply_escapes`, the configuration by side and
+    length, `parse_with_config(to_pattern_chars(..))` — on `Err` the value is left as it is — then `trim_value` on
+    the scalar or on every element of the array -/
+def trimApplyValue (side : TrimSide) (len : TrimLength) (pattern : List AttrChar) (value : Value) : Value :=
+  match Pattern.parse (toPatternChars (applyEscapes pattern)) (trimConfig side len) with
+  | .error _ => value
+  | .ok p =>
+    match value with
+    | .scalar v => .scalar (trimValue p v)
+    | .array vs => .array (vs.map (trimValue p))
+
 end YashModel.Fnmatch
